@@ -415,7 +415,7 @@ def run_case(w, c):
     if not violation and f in ('pasv', 'epsv'):
         if expect_connect is False and connects:
             violation = ('the %s reply %r is not valid (a component is out of range / not a number) but Squid opened a data connection to '
-                         'port %d, the wrapped reading of it' % (f.upper(), script[f.upper()].strip(), w.ftp.data_port))
+                         'port %d (the port it names, or wraps to)' % (f.upper(), script[f.upper()].strip(), w.ftp.data_port))
         elif expect_connect is True and not connects:
             violation = 'the valid %s reply %r was not used: no data connection arrived (status %d)' % (f.upper(), script[f.upper()].strip(), status)
         outcome = '%s:%s:%s' % (f, {True: 'valid', False: 'invalid', None: 'unjudged'}[expect_connect], 'connected' if connects else 'no-connect')
